@@ -11,24 +11,27 @@ import re
 import vf
 
 META = {
-    "text": "Theorems (Coq, no axioms) over a Gallina model of the BlockFetcher+BlockProcessor loop (queues, peers with fail counts, "
-            "isMatched, connect queue, popFromConnQueue after the F16 repair, AddBlockResponse, timeouts, stop) for every event "
-            "sequence with adversarial peers: blocks handed to the chain service have heights ancestor+1, +2, ... without gap or "
-            "duplicate, each is the block the hash list names at that height, each is a child of the previous one (first: of the "
-            "ancestor); the successful stop is emitted only when the target block is acknowledged, at most once per session, and every "
-            "error stops the loop; with no block in flight the processor never sits on a chunk it could pop; "
-            "a stale AddBlockRsp of an earlier session can only stop the session. Finder: light scan returns an anchor on both chains "
-            "when the remote answers truthfully, binary search returns the highest common height when the chains share exactly a prefix. "
-            "Session layer: messages carrying an old sequence number are dropped and a new session can start after any stop. The "
-            "unrepaired pop test is refuted by the spliced-list witness (F16). Tied to /repo on every run by a step engine (real objects, "
-            "loop body replayed per event, all messages and queues diffed with the model), by runs of the real goroutines with a "
-            "watchdog (direct predicate) whose Finder results are also compared with the Finder model. Deadlock-freedom of the goroutines/channels is supported by the watchdog runs only (partial).",
-    "note": "Trusted: Coq kernel/vm_compute; engines and generators; the step engine replays the 20-line select loop body of "
-            "BlockFetcher.Start (copied); hash sets handed to the BlockFetcher are consecutive ranges (HashFetcher.processHashSet, "
-            "read, not modelled); chain.findAncestor/getAnchorsNew are modelled and tied through the repository's StubBlockChain copies; "
-            "models the code after fixes/F16_syncer_linked_chunks.diff.",
+    "text": "22 theorems (Coq, no axioms). FULL, for every event sequence with adversarial peers (model of the BlockFetcher+"
+            "BlockProcessor loop): blocks handed to the chain service have heights ancestor+1, +2, ... (no gap, no duplicate), each "
+            "is the block the hash list names and a child of the previous one (first: of the ancestor); success stop only for the acknowledged "
+            "target and at most once; every error leaves the loop; a stale AddBlockRsp can only stop the session; the retry head is always "
+            "schedulable; the processor never sits on a poppable chunk; HashFetcher hands over consecutive ranges (discharges the hash-list "
+            "premise) and its goroutine exits on quit after any response/timer order; a new session starts after any stop, old sequence numbers "
+            "are dropped; light-scan result is on both main chains; binary search = highest common block; the full scan "
+            "covers every height below the lowest anchor. PARTIAL: 'stops or completes / never deadlocks' - no liveness proof, supported "
+            "by the fair-completion predicate and watchdogs. REFUTED (kept visible, code repaired): unrepaired pop test (F16); timer drain "
+            "idiom. Tie on every run: step engine (real BlockFetcher/BlockProcessor, loop body replayed, every message and queue diffed with "
+            "the model); real Syncer/Finder/HashFetcher/BlockFetcher goroutines under StubSyncer (contiguity, linkage, clean session end, "
+            "restart; Finder result diffed with the model); chain-side engine (two real ChainServices: getAnchorsNew / findAncestor with "
+            "stored side branches, diffed with the model, ancestor on both main chains, full scan = highest common).",
+    "note": "Trusted: Coq kernel + vm_compute (no axioms); engines, generators, predicates of checks/C17.py; the 20-line select-loop body "
+            "copied into the step driver, hfCh given capacity 1, symbolic block ids (Hash field set directly) in the step engine; "
+            "StubBlockChain as the peers' chain in the syncer engines (the real findAncestor/getAnchorsNew are tied by the chain-side engine "
+            "only). Modelled rather than verified: HashFetcher (tied end to end only), session layer, the HashFetcher loop/timer model; not "
+            "modelled: p2p block/hash receivers, Finder timers and channel hand-over, goroutine liveness. Wall-clock timeouts in the real runs "
+            "are tolerated by the predicates.",
     "technique": "Coq invariant proofs over a Gallina event-driven state machine + step-by-step vm_compute correspondence against the "
-                 "real BlockFetcher/BlockProcessor + watchdog runs of the real syncer goroutines",
+                 "real BlockFetcher/BlockProcessor + real-goroutine and real-ChainService engines with direct predicates",
 }
 
 ANSWER_FAULTS = ["err", "empty", "short", "long", "unlinked", "wrongno", "wrongpeer", "wronghash", "stale", "stale"]
@@ -468,7 +471,7 @@ def run(ctx):
     ctx.assumptions = ["hash sets reach the BlockFetcher as consecutive ranges starting at ancestor+1 (HashFetcher)",
                        "one event = one iteration of the BlockFetcher select loop (single goroutine owns all modelled state)",
                        "deadlock-freedom of channels/goroutines is not proved (watchdog runs only)",
-                       "behaviour after fixes/F16_syncer_linked_chunks.diff"]
+                       "behaviour of /repo with F16 fixed"]
     rc, log, binp = ctx.go_test_binary("syncer", [os.path.join(vf.HARNESS, "engines/syncer/zz_verif_c17_engine_test.go")], "syncer_c17.test")
     if rc != 0:
         raise RuntimeError("syncer engine build failed:\n" + log[-3000:])
@@ -476,7 +479,7 @@ def run(ctx):
     # ---- step engine: correspondence + direct predicate
     scases = corpus_cases(ctx, "step")
     ncorpus = len(scases)
-    for i in range(110 if quick else 5000):
+    for i in range(90 if quick else 5000):
         scases.append(gen_step_case(rng, big=(not quick and i % 5 == 0)))
     sobs = run_engine(ctx, binp, "TestVerifC17Steps", scases, "steps")
     pred_fail = []
